@@ -41,9 +41,10 @@ pub enum Kind {
     JoinMerge,
     FullVertex,
     Storm,
+    DeepMerge,
 }
 
-const KINDS: [Kind; 30] = [
+const KINDS: [Kind; 31] = [
     Kind::Add,
     Kind::AddNext,
     Kind::NextOnly,
@@ -74,6 +75,7 @@ const KINDS: [Kind; 30] = [
     Kind::JoinMerge,
     Kind::FullVertex,
     Kind::Storm,
+    Kind::DeepMerge,
 ];
 
 fn base_weights(prop: &str) -> Vec<(Kind, u32)> {
@@ -113,13 +115,13 @@ fn base_weights(prop: &str) -> Vec<(Kind, u32)> {
         "C09" => w.extend([(SaveCut, 4), (Save, 3), (Load, 2), (Crash, 2), (Cycle, 2), (Merge, 1), (Clone, 1), (SaveReadSave, 1)]),
         "C10" => w.extend([
             (Clone, 4), (CloneLinked, 5), (DropInst, 2), (Unlink, 1), (NextOnly, 2), (Merge, 1), (Cycle, 2),
-            (Save, 1), (Load, 1), (DrainClone, 1), (Slice, 2),
+            (Save, 1), (Load, 1), (DrainClone, 1), (Slice, 2), (NewInst, 2),
         ]),
-        "C11" => w.extend([(Merge, 6), (Save, 1), (Load, 1), (Crash, 1), (DrainClone, 1), (RejectedMerge, 1)]),
+        "C11" => w.extend([(Merge, 6), (Save, 1), (Load, 1), (Crash, 1), (DrainClone, 1), (RejectedMerge, 1), (DeepMerge, 1)]),
         "C13" => w.extend([(Slice, 10), (Bind, 8), (Reseed, 1), (Clone, 1), (Cycle, 1), (Put, 0)]),
         "C19" => w.extend([
             (Slice, 4), (Merge, 3), (Reseed, 2), (NextOnly, 2), (Clone, 1), (Save, 1), (Load, 1), (Script, 1),
-            (Cycle, 2), (DrainClone, 1), (RejectedMerge, 1),
+            (Cycle, 2), (DrainClone, 1), (RejectedMerge, 1), (NewInst, 2), (CloneLinked, 1),
         ]),
         _ => {}
     }
@@ -266,11 +268,24 @@ impl Gen {
             PLabel::S("a".into()),
             PLabel::S("ax".into()),
             PLabel::S(" ax".into()),
+            // two texts that differ in one character only, by exactly 0x10000 (U+1D711 / U+D711)
+            PLabel::S("𝜑z".into()),
+            PLabel::S("휑z".into()),
+            PLabel::G('σ'),
         ];
         let mut alphabet: Vec<PLabel> = pool.to_vec();
         rng.shuffle(&mut alphabet);
         let asize = rng.range(2, 8).max(cfg.n.min(8));
         alphabet.truncate(asize.min(pool.len()));
+        // labels that are easily confused come in pairs
+        for (x, y) in [("𝜑z", "휑z"), ("a x", "ax"), ("a x", "a y"), ("ax", " ax")] {
+            let (px, py) = (PLabel::S(x.into()), PLabel::S(y.into()));
+            if alphabet.contains(&px) && !alphabet.contains(&py) {
+                alphabet.push(py);
+            } else if alphabet.contains(&py) && !alphabet.contains(&px) {
+                alphabet.push(px);
+            }
+        }
         let all_lens = [0_usize, 1, 7, 8, 9, 16, 40];
         let mut lens: Vec<usize> = all_lens.iter().copied().filter(|_| rng.chance(2, 3)).collect();
         // now and then a datum whose length needs a second byte (255, 256, 300)
@@ -348,7 +363,13 @@ impl Gen {
                 }
             }
             1 => d.iter_mut().for_each(|b| *b = 0xFF),
-            2 => d.iter_mut().for_each(|b| *b = 0x00),
+            2 => {
+                // all zeros, now and then of a length around 255 (runs of zeros of a particular length)
+                if self.rng.chance(1, 2) {
+                    d = vec![0; self.rng.range(230, 270)];
+                }
+                d.iter_mut().for_each(|b| *b = 0x00);
+            }
             3 => {
                 let text = "привет, мир! 図形 𝜑 hello".as_bytes();
                 for (i, b) in d.iter_mut().enumerate() {
@@ -605,7 +626,7 @@ impl Gen {
                         .filter(|j| {
                             *j != i && view.followers(*j).is_empty() && {
                                 let o = view.insts[*j].as_ref().unwrap();
-                                !o.poisoned && o.m.cap == m.cap && !o.m.adoptive && !m.adoptive
+                                !o.poisoned && !o.m.adoptive && !m.adoptive
                             }
                         })
                         .collect();
@@ -635,6 +656,11 @@ impl Gen {
             Kind::NewInst => {
                 if view.live().len() >= self.max_insts {
                     return None;
+                }
+                if self.rng.chance(1, 3) {
+                    // a graph of another capacity next to the others (clone_from and merge across capacities)
+                    let cap = if self.rng.chance(1, 2) { view.cfg.cap + self.rng.range(1, 60) } else { self.rng.range(2, view.cfg.cap.max(2)) };
+                    return Some(Step::EmptyCap { i: view.free_slot()?, cap: cap.min(300) });
                 }
                 Some(Step::Empty { i: view.free_slot()? })
             }
@@ -758,7 +784,7 @@ impl Gen {
                         2 => ("a".to_string(), "ab".to_string()),
                         _ => ("x".to_string(), "y".to_string()),
                     };
-                    return Some(Step::Script2 { i, p: view.name(p), l1, l2, a, b });
+                    return Some(Step::Script2 { i, p: view.name(p), l1, l2, a, b, twice: self.rng.chance(1, 3) });
                 }
                 let lit = self.pick_present(m);
                 let l = self.label();
@@ -869,10 +895,62 @@ impl Gen {
                     let kind = self.rng.below(5) as u8;
                     return Some(Step::Repeat { i, kind, v: view.name(v), times });
                 }
+                if self.rng.chance(1, 4) && !m.adoptive {
+                    // a lookup, the death and re-creation of the vertex, a storm elsewhere, the lookup again
+                    let unread = m.unread_ids();
+                    for _ in 0..6 {
+                        if unread.is_empty() {
+                            break;
+                        }
+                        let reader = *self.rng.pick(&unread);
+                        let mut mm = m.clone();
+                        let out = mm.data(reader);
+                        let dying: Vec<usize> = out.removed.iter().copied().filter(|x| !m.present[x].edges.is_empty()).collect();
+                        if dying.is_empty() {
+                            continue;
+                        }
+                        let v = *self.rng.pick(&dying);
+                        let a = m.present[&v].edges[self.rng.below(m.present[&v].edges.len())].0.clone();
+                        let rest: Vec<usize> = mm.present.keys().copied().collect();
+                        if rest.len() < 3 {
+                            continue;
+                        }
+                        let (w, t1, t2) = (*self.rng.pick(&rest), *self.rng.pick(&rest), *self.rng.pick(&rest));
+                        if w == t1 || w == t2 || t1 == t2 {
+                            continue;
+                        }
+                        let b = self.label();
+                        // the add and the first two binds are edge changes too: counts around the multiple
+                        let times = base - 4 + self.rng.below(8);
+                        return Some(Step::ReaddStorm { i, v: view.name(v), a, reader: view.name(reader), w: view.name(w), b, t1: view.name(t1), t2: view.name(t2), times });
+                    }
+                }
                 if self.rng.chance(1, 3) {
                     let v = self.pick_present(m)?;
                     if !m.closure(v, &|_, _, _| true).is_some_and(|c| c.len() <= 14) {
                         return None;
+                    }
+                    // slices are cheap: the 16-bit wrap is tried often; a judged slice first, then (when
+                    // something can die) a drain, then the storm, then a judged slice
+                    let times = if self.rng.chance(1, 3) { 65_536 - self.rng.below(10) } else { times };
+                    if !m.unread_ids().is_empty() && self.rng.chance(1, 2) {
+                        let seeds = vec![self.rng.next_u64()];
+                        // the storm and the judged slice afterwards start at vertices that survive the drain
+                        let mut mm = m.clone();
+                        for r in m.unread_ids() {
+                            if mm.is_present(r) {
+                                mm.data(r);
+                            }
+                        }
+                        if let (Some(w), Some(w2)) = (self.pick_present(&mm), self.pick_present(&mm)) {
+                            let ok = |x: usize| mm.closure(x, &|_, _, _| true).is_some_and(|c| c.len() <= 14);
+                            if ok(w) && ok(w2) {
+                                self.queue.push_back(Step::Drain { i, on_clone: false, order: self.rng.next_u64() });
+                                self.queue.push_back(Step::SliceStorm { src: i, v: view.name(w), times });
+                                self.queue.push_back(Step::Slice { src: i, v: view.name(w2), pred: Pred::All, seeds: vec![self.rng.next_u64()], keep: None });
+                                return Some(Step::Slice { src: i, v: view.name(v), pred: Pred::All, seeds, keep: None });
+                            }
+                        }
                     }
                     // afterwards an ordinary, fully judged slice of some vertex
                     let w = self.pick_present(m)?;
@@ -906,6 +984,81 @@ impl Gen {
                     return Some(Step::Storm { i, v: view.name(v), a, t1: view.name(t1), t2: view.name(t2), times });
                 }
                 None
+            }
+            Kind::DeepMerge => {
+                // two deep chains (more than 16 edges from the root, so each spans two groups that are
+                // linked by a bind between two grouped vertices); h repeats g's labels and adds a leaf
+                let free: Vec<usize> = (0..view.insts.len()).filter(|k| view.insts[*k].is_none()).collect();
+                if free.len() < 2 {
+                    return None;
+                }
+                let (g, h) = (free[0], free[1]);
+                let cap = view.cfg.cap.max(26);
+                let depth = self.rng.range(17, 21);
+                let split = self.rng.range(6, 12);
+                let l = self.label();
+                let with_data = self.rng.chance(1, 2);
+                let mut steps = Vec::new();
+                for (inst, extra) in [(g, 0_usize), (h, 1)] {
+                    steps.push(Step::EmptyCap { i: inst, cap });
+                    let n = depth + extra;
+                    for v in 0..n {
+                        steps.push(Step::Add { i: inst, v: Id::L(v) });
+                    }
+                    // part A: 0 -> 1 -> … -> split ; part B: split+1 -> … ; then the link split -> split+1
+                    for v in 0..split {
+                        steps.push(Step::Bind { i: inst, a: Id::L(v), b: Id::L(v + 1), l: l.clone() });
+                    }
+                    for v in (split + 1)..(n - 1) {
+                        steps.push(Step::Bind { i: inst, a: Id::L(v), b: Id::L(v + 1), l: l.clone() });
+                    }
+                    steps.push(Step::Bind { i: inst, a: Id::L(split), b: Id::L(split + 1), l: l.clone() });
+                    if with_data {
+                        let d = self.data_bytes();
+                        steps.push(Step::Put { i: inst, v: Id::L(n - 1), d });
+                    }
+                }
+                steps.push(Step::Merge { dst: g, src: h, left: Id::L(0), right: Id::L(0) });
+                steps.push(Step::Drain { i: g, on_clone: false, order: self.rng.next_u64() });
+                steps.push(Step::Drop { i: h });
+                steps.push(Step::Drop { i: g });
+                let first = steps.remove(0);
+                self.queue.extend(steps);
+                Some(first)
+            }
+            Kind::FullVertex if self.rng.chance(1, 3) => {
+                // a neighbour (adjacent id) that carries the same label -> target pairs as `u`, bound in
+                // the opposite order
+                let cands: Vec<usize> = m.present.iter().filter(|(_, mv)| mv.edges.len() >= 2).map(|(k, _)| *k).collect();
+                if cands.is_empty() {
+                    return None;
+                }
+                let u = *self.rng.pick(&cands);
+                let w = if u + 1 < m.cap && self.rng.chance(1, 2) { u + 1 } else if u > 0 { u - 1 } else { u + 1 };
+                if w >= m.cap || w == u {
+                    return None;
+                }
+                let mut mm = m.clone();
+                let mut steps = Vec::new();
+                if !mm.is_present(w) {
+                    mm.add(w);
+                    steps.push(Step::Add { i, v: Id::L(w) });
+                }
+                if !mm.present[&w].edges.is_empty() {
+                    return None;
+                }
+                let mut pairs = m.present[&u].edges.clone();
+                pairs.reverse();
+                for (l, t) in pairs {
+                    if t == w || !mm.is_present(t) || !mm.can_bind(w, t, &l) {
+                        return None;
+                    }
+                    mm.bind(w, t, &l);
+                    steps.push(Step::Bind { i, a: Id::L(w), b: view.name(t), l });
+                }
+                let first = steps.remove(0);
+                self.queue.extend(steps);
+                Some(first)
             }
             Kind::FullVertex => {
                 // a vertex that carries exactly N labels (the limit), spread over few targets, then a
@@ -1063,6 +1216,29 @@ impl Gen {
         let mut steps = Vec::new();
         for v in &ids {
             steps.push(Step::Add { i, v: Id::L(*v) });
+        }
+        if self.rng.chance(1, 8) && force_bg != Some(true) {
+            // every member is put and read while it is still ungrouped, only then they are bound:
+            // the group holds data but no unread datum; then an add() of a member, a put, a read
+            for v in &ids {
+                steps.push(Step::Put { i, v: Id::L(*v), d: self.data_bytes() });
+                steps.push(Step::Data { i, v: Id::L(*v) });
+            }
+            for k in 1..ids.len().min(view.cfg.n + 1) {
+                let l = self.alphabet[(k - 1) % self.alphabet.len()].clone();
+                steps.push(Step::Bind { i, a: Id::L(ids[0]), b: Id::L(ids[k]), l });
+            }
+            let again = ids[self.rng.below(ids.len())];
+            steps.push(Step::Add { i, v: Id::L(again) });
+            steps.push(Step::Data { i, v: Id::L(again) });
+            if self.rng.chance(1, 2) {
+                let w = ids[self.rng.below(ids.len())];
+                steps.push(Step::Put { i, v: Id::L(w), d: self.data_bytes() });
+                steps.push(Step::Data { i, v: Id::L(w) });
+            }
+            let first = steps.remove(0);
+            self.queue.extend(steps);
+            return Some(first);
         }
         let put_first = self.rng.chance(1, 3);
         let carrier = ids[self.rng.below(ids.len())];
